@@ -1,2 +1,134 @@
-(* Model/Fasta.v — executable model; no proofs here. *)
+(* Model/Fasta.v — executable model of /repo/formats/fasta (fasta.go, iter.go).
+   No proofs here.
+
+   Writer: [write_calls r] is the list of byte chunks Fasta.Write passes to its
+   io.Writer, one element per fmt.Fprintf call; MarshalText is Write into a
+   buffer followed by the length self-check (panic on mismatch).
+
+   Reader: [rd_loop] is the body of reader.read(): the four-state byte machine
+   with the readAnything flag; [read_one] adds the three return statements
+   after the loop; [decode] is reader.iter() (= Reader) run to the end with a
+   consumer that never stops.  A stream is the delivered bytes plus the
+   terminal condition observed by ReadByte after the last byte. *)
 From Bio Require Import Base.
+
+Record fasta : Type := { name : bytes; seq : bytes }.
+
+Definition GT : byte := 62.                       (* '>' *)
+Definition is_nl (b : byte) : bool := (b =? LF) || (b =? CR).   (* b == '\n' || b == '\r' *)
+
+(* ------------------------------------------------------------------ *)
+(* Fasta.Write                                                          *)
+
+Definition text_line_len : nat := 80.             (* const textLineLen *)
+
+(* for i := 0; i < len(seq); i += textLineLen { seq[i:min(i+textLineLen,len)] }
+   [s] is seq[i:]; every iteration with i < len removes min(80,len-i) >= 1
+   bytes, so fuel [length s] is never exhausted (FastaProofs.chunks_concat). *)
+Fixpoint chunks_aux (fuel : nat) (s : bytes) : list bytes :=
+  match fuel with
+  | O => []
+  | S f =>
+    match s with
+    | [] => []
+    | _ :: _ => firstn text_line_len s :: chunks_aux f (skipn text_line_len s)
+    end
+  end.
+Definition chunks (s : bytes) : list bytes := chunks_aux (length s) s.
+
+(* one element per Fprintf: ">%s\n" with the name, then "%s\n" per chunk *)
+Definition write_calls (r : fasta) : list bytes :=
+  (GT :: name r ++ [LF]) :: map (fun c => c ++ [LF]) (chunks (seq r)).
+
+Definition write (r : fasta) : bytes := concat (write_calls r).
+
+(* n := 2 + len(Name) + len(Sequence) + (len(Sequence)+textLineLen-1)/textLineLen *)
+Definition marshal_len (r : fasta) : nat :=
+  2 + length (name r) + length (seq r)
+  + (length (seq r) + text_line_len - 1) / text_line_len.
+
+(* MarshalText: Write into a bytes.Buffer (cannot fail), then
+   if buf.Len() != n { panic(...) }; return buf.Bytes(), nil *)
+Definition marshal_text (r : fasta) : outcome bytes :=
+  let buf := write r in
+  if Nat.eqb (length buf) (marshal_len r) then Ok buf else Panic.
+
+(* ------------------------------------------------------------------ *)
+(* reader.read()                                                        *)
+
+Inductive state : Type := SStart | SNewLine | SName | SSeq.
+
+(* The for loop.  [nm], [sq]: result.Name / result.Sequence so far, reversed
+   (append = cons).  [any]: readAnything.  Result: the accumulators and the
+   flag when the loop ends, and how it ended:
+     [None]      — ReadByte returned the stream's terminal condition (input exhausted);
+     [Some rest] — "break loop" after UnreadByte: err is nil, [rest] (starting
+                   with the unread '>') is what the next read() will see. *)
+Fixpoint rd_loop (st : state) (nm sq : bytes) (any : bool) (inp : bytes)
+  : (bytes * bytes * bool) * option bytes :=
+  match inp with
+  | [] => ((nm, sq, any), None)
+  | b :: rest =>
+    (* readAnything = true *)
+    match st with
+    | SStart =>
+      if b =? GT then rd_loop SName nm sq true rest
+      else if is_nl b then rd_loop SNewLine nm sq true rest
+      else rd_loop SSeq nm (b :: sq) true rest
+    | SSeq =>
+      if is_nl b then rd_loop SNewLine nm sq true rest
+      else rd_loop SSeq nm (b :: sq) true rest
+    | SName =>
+      if is_nl b then rd_loop SNewLine nm sq true rest
+      else rd_loop SName (b :: nm) sq true rest
+    | SNewLine =>
+      if is_nl b then rd_loop SNewLine nm sq true rest
+      else if b =? GT then ((nm, sq, true), Some (b :: rest))   (* UnreadByte; break loop *)
+      else rd_loop SSeq nm (b :: sq) true rest
+    end
+  end.
+
+(* What read() returns. *)
+Inductive rd_result : Type :=
+| RdRec (r : fasta) (rest : bytes)    (* (result, nil); [rest] is still unread *)
+| RdEOF                               (* (nil, io.EOF) *)
+| RdErr.                              (* (nil, err), err != io.EOF *)
+
+Definition mk_result (nm sq : bytes) : fasta :=
+  {| name := rev_append nm []; seq := rev_append sq [] |}.
+
+Definition read_one (inp : bytes) (t : term) : rd_result :=
+  match rd_loop SStart [] [] false inp with
+  | ((nm, sq, any), Some rest) =>
+    (* left by break: err == nil and readAnything is true *)
+    RdRec (mk_result nm sq) rest
+  | ((nm, sq, any), None) =>
+    (* err is the terminal condition *)
+    if negb any then
+      match t with TEOF => RdEOF | TErr => RdErr end      (* return nil, err *)
+    else
+      match t with
+      | TErr => RdErr                                     (* err != nil && err != io.EOF *)
+      | TEOF => RdRec (mk_result nm sq) []                (* EOF is reported by the next call *)
+      end
+  end.
+
+(* ------------------------------------------------------------------ *)
+(* reader.iter() / Reader, consumed to the end.                         *)
+
+(* Every read() that returns a record and leaves input has consumed at least
+   one byte, so [length inp + 1] calls suffice (FastaProofs.decode_fuel_enough
+   proves it for every input); an exhausted fuel yields nothing more. *)
+Fixpoint decode_fuel (fuel : nat) (inp : bytes) (t : term) : list (item fasta) :=
+  match fuel with
+  | O => []
+  | S f =>
+    match read_one inp t with
+    | RdRec r rest => Rec r :: decode_fuel f rest t       (* yield(fa, nil) *)
+    | RdEOF => []                                         (* break *)
+    | RdErr => [ErrItem]                                  (* yield(nil, err); break *)
+    end
+  end.
+
+Definition decode (inp : bytes) (t : term) : list (item fasta) :=
+  decode_fuel (S (length inp)) inp t.
